@@ -32,7 +32,7 @@ _TMP = None
 
 def classes(tier):
     return ["construct", "construct_invalid", "marginal_exh", "marginal_rand",
-            "marginal_invalid", "distances", "saveload"]
+            "marginal_invalid", "distances", "saveload", "wide"]
 
 
 # ----------------------------------------------------------------------------- oracle helpers
@@ -304,6 +304,7 @@ def run_case(ctx):
         save_measurement_outcome_distributions,
     )
 
+    global _TMP
     rng = ctx.rng
     cls = ctx.cls
     if cls == "construct":
@@ -457,8 +458,83 @@ def run_case(ctx):
         ctx.check("js-symmetric", abs(ej_ab - ej_ba) <= 1e-12 * max(1, abs(ej_ab)) and abs(ej_ab - j_ab) <= 1e-12 * max(1, abs(j_ab)),
                   lambda: f"evaluate_distribution_distance(jsd) ab={ej_ab!r} ba={ej_ba!r} direct={j_ab!r}")
         return
+    if cls == "wide":
+        # registers wider than a byte / a machine word: outcomes on 9..70 subsystems, few keys.  Bit-packed fast
+        # paths and fixed-width integer arithmetic go wrong only up here.
+        n = rng.choice([9, 12, 16, 17, 31, 32, 33, 40, 63, 64, 65, 70])
+        k = rng.randint(2, 6)
+        keys = set()
+        while len(keys) < k:
+            r = rng.random()
+            if r < 0.25:
+                key = tuple(rng.choice([0, 1]) for _ in range(n))
+            elif r < 0.5:  # differs from an earlier key in one (often high-numbered / low-numbered) position
+                base = list(rng.choice(sorted(keys))) if keys else [0] * n
+                q = rng.choice([0, 1, n - 1, n - 2, rng.randrange(n)])
+                base[q] ^= 1
+                key = tuple(base)
+            elif r < 0.75:
+                key = tuple([rng.choice([0, 1])] * n)
+            else:
+                q = rng.randrange(n)
+                key = tuple(1 if i == q else 0 for i in range(n))
+            keys.add(key)
+        keys = sorted(keys)
+        rng.shuffle(keys)
+        w = rand_weights(rng, len(keys))
+        style = rng.choice(["tuple", "str"])
+        d1 = {(k_ if style == "tuple" else "".join(map(str, k_))): v for k_, v in zip(keys, w)}
+        keys2 = list(keys)
+        rng.shuffle(keys2)
+        keys2 = keys2[: rng.randint(1, len(keys2))]
+        extra = tuple(rng.choice([0, 1]) for _ in range(n))
+        if extra not in keys2:
+            keys2.append(extra)
+        d2 = {k_: v for k_, v in zip(keys2, rand_weights(rng, len(keys2)))}
+        sub = rng.sample(range(n), rng.randint(1, min(n, 6)))
+        if rng.random() < 0.5:
+            sub[0] = rng.choice([n - 1, n - 2, 8 % n, 0])
+            sub = list(dict.fromkeys(sub))
+        mode = rng.choice(["marginal", "distances", "saveload"])
+        ctx.describe(f"wide {mode} n={n} sub={sub} {d1!r} {d2!r}", True)
+        ctx.mon.note(f"wide:n={n}")
+        a, b = MOD(dict(d1)), MOD(dict(d2))
+        if mode == "marginal":
+            a.subdistribution(sub)
+            b.subdistribution(list(reversed(sub)))
+            a.subdistribution(sub)
+        elif mode == "distances":
+            sig = rng.choice([1.0, 0.3, [0.5, 2.0], 1e6])
+            p = {"sigma": sig}
+            m_ab, m_ba, m_aa = compute_mmd(a, b, p), compute_mmd(b, a, p), compute_mmd(a, a, p)
+            ok = abs(m_ab - m_ba) <= 1e-12 and m_ab >= -1e-12 and abs(m_aa) <= 1e-15
+            ctx.check("mmd-laws", ok, lambda: f"mmd ab={m_ab!r} ba={m_ba!r} aa={m_aa!r} for {d1!r} {d2!r} sigma={sig}")
+            eps = rng.choice([1e-9, 1e-3])
+            pe = {"epsilon": eps}
+            for t, m in ((a, b), (b, a), (a, a)):
+                val = nll(t, m, pe)
+                tv = [v for _, v in _items(t)]
+                ent = -sum(v * math.log(v) for v in tv if v > 0)
+                K = len(set(k_ for k_, _ in _items(t)) | set(k_ for k_, _ in _items(m)))
+                ctx.check("nll-entropy-bound", val >= ent - K * eps - 1e-12,
+                          lambda: f"nll={val!r} < entropy={ent!r} - {K}*{eps} for target {_items(t)} model {_items(m)}")
+            j_ab, j_ba = jsd(a, b, pe), jsd(b, a, pe)
+            ctx.check("js-symmetric", abs(j_ab - j_ba) <= 1e-12 * max(1, abs(j_ab)), lambda: f"jsd ab={j_ab!r} ba={j_ba!r}")
+        else:
+            if _TMP is None:
+                _TMP = tempfile.mkdtemp(prefix="rv-c17-")
+            path = os.path.join(_TMP, f"w{ctx.index}.json")
+            try:
+                save_measurement_outcome_distribution(a, path)
+                back = load_measurement_outcome_distribution(path)
+            finally:
+                if os.path.exists(path):
+                    os.remove(path)
+            ia, ib = dict(_items(a)), dict(_items(back))
+            ctx.check("save-load", set(ia) == set(ib) and all(abs(ia[k_] - ib[k_]) <= 1e-12 for k_ in ia),
+                      lambda: f"saved {ia!r} loaded {ib!r}")
+        return
     if cls == "saveload":
-        global _TMP
         if _TMP is None:
             _TMP = tempfile.mkdtemp(prefix="rv-c17-")
         many = rng.random() < 0.3
